@@ -19,8 +19,10 @@ NONE = ("filter::None", "FExpr::None", "none")
 # a views list used as a filter: &A -> Has A, Option<&O> -> true
 VIEWF = ("(&'static A, (Option<&'static O>, view::Null))", "FExpr::Has(0)", "views(&A,Option<&O>)")
 VIEWF2 = ("(&'static mut B, (entity::Identifier, view::Null))", "FExpr::Has(3)", "views(&mut B,id)")
-FQ = [NONE, H("B"), N(H("Z")), OR(H("A"), N(H("O")))]
-FT = FQ + [AND(H("A"), H("B")), N(AND(H("A"), H("Z"))), OR(H("Z"), N(H("Z"))), VIEWF, OR(AND(H("A"), N(H("B"))), AND(H("Z"), H("O"))), AND(N(H("A")), OR(H("B"), H("O"))), VIEWF2]
+# `None` and `Not<None>` as leaves of nested filters (statically always / never satisfied), a view list inside Not
+NEVER = N(NONE)
+FQ = [NONE, H("B"), N(H("Z")), OR(H("A"), N(H("O"))), OR(NEVER, H("B")), N(VIEWF)]
+FT = FQ + [AND(NONE, H("A")), N(AND(NONE, N(OR(NEVER, H("A"))))), OR(N(VIEWF2), H("Z")), AND(NEVER, NONE), OR(AND(NEVER, H("A")), N(H("B"))), AND(H("A"), H("B")), N(AND(H("A"), H("Z"))), OR(H("Z"), N(H("Z"))), VIEWF, OR(AND(H("A"), N(H("B"))), AND(H("Z"), H("O"))), AND(N(H("A")), OR(H("B"), H("O"))), VIEWF2]
 
 def view_lists():
     out = []
@@ -125,10 +127,10 @@ def build(thorough):
         ords = orders(base, thorough)
         if not thorough:
             # quick: registry order for half of the view lists, reversed order for the other half; filter None
-            # plus one of the three other quick filters in rotation (the full product is the thorough tier)
+            # plus one of the other quick filters in rotation (the full product is the thorough tier)
             n = len(cases) // 2
             ords = [ords[n % len(ords)]]
-            filts = [NONE, FQ[1 + n % 3]]
+            filts = [NONE, FQ[1 + n % (len(FQ) - 1)]]
         else:
             filts = FT
         for items in ords:
